@@ -278,6 +278,8 @@ def check_property(pid, units, tier="quick", seed=0, extra=None):
                  "obligations": sum(1 for _, o in r.obligations if o.kind != "canary" and (pid in o.props or o.kind != "ensures"))}
                 for r in results],
             "backends": by_backend, "solver_wall_s": round(t_solve, 2),
+            "cvc5_cross_check": ({"agrees_unsat": sum(1 for x in sols if x.get("cvc5_agrees") is True), "no_answer_or_unsupported_syntax": sum(1 for x in sols if x.get("cvc5_agrees") is False)}
+                                 if tier == "thorough" else "thorough tier only"),
             "canaries_refuted_or_open": sum(1 for v in can_by.values() if not all(x == "proved" for x in v)), "canary_groups": len(can_by),
             "undecided": [u[0] + ": " + str(u[1]) for u in undecided][:50],
             "known_findings": [h[0]["what"] for h in known_hits][:20],
